@@ -1078,7 +1078,7 @@ def run(ctx):
             featsets.add(tuple(sorted(rig.features)))
             for f in rig.features:
                 allfeats[f] = allfeats.get(f, 0) + 1
-        nscripts = 120 if ctx.quick else 2500
+        nscripts = 400 if ctx.quick else 20000
         for _ in range(nscripts):
             rig = Rig(ctx)
             out = gen_script(ctx, rng, rig, rng.randrange(18, 45 if ctx.quick else 90))
@@ -1099,7 +1099,7 @@ def run(ctx):
         # ---- 2. the handshake: real GeckoSpa vs real simulator handlers, seeded loss
         snaps = usable_snapshots()
         ctx.cov["snapshots_usable"] = len(snaps)
-        nh = 10 if ctx.quick else 120
+        nh = 30 if ctx.quick else 1500
         hs_out = {}
         for i in range(nh):
             if not snaps:
@@ -1121,14 +1121,14 @@ def run(ctx):
                     ctx.sample({"handshake": {k: inp[k] for k in ("snapshot", "budget", "timeout_s", "plan")}, "events": ",".join(res["hev"])[:200],
                                 "stage": res["stage"], "virtual_us": res["clock"], "client_datagrams": res["client_sent"]})
         ctx.cov["handshake_outcomes"] = hs_out
-        # ---- 3. thorough: the real thread (a test)
-        if not ctx.quick:
-            try:
-                ctx.cov["real_thread_test"] = real_thread_test(ctx)
-                if ctx.cov["real_thread_test"]["problems"]:
-                    ctx.notes.append("real-thread TEST reported: " + "; ".join(ctx.cov["real_thread_test"]["problems"]))
-            except Exception as e:  # noqa
-                ctx.cov["real_thread_test"] = f"raised {type(e).__name__}: {e}"
+    # ---- 3. thorough: the engine's own thread with the real clock (a TEST - supporting evidence only, outside the proof tie)
+    if not ctx.quick:
+        try:
+            ctx.cov["real_thread_test"] = real_thread_test(ctx)
+            if ctx.cov["real_thread_test"]["problems"]:
+                ctx.notes.append("real-thread TEST reported: " + "; ".join(ctx.cov["real_thread_test"]["problems"]))
+        except Exception as e:  # noqa
+            ctx.cov["real_thread_test"] = f"raised {type(e).__name__}: {e}"
     # ---- 4. the model on the same ops
     try:
         model = Driver("Driver/C20.lean").run(lines)
